@@ -15,7 +15,7 @@ RULE = (
     "as argv and (when expressible) as quoted string; exhaustive: for small formats (0-2 options over 8 shapes x 6 "
     "argument shapes x with/without a command name on a base level) and 2-value pools, EVERY meaning x spelling x "
     "interleaving the same grammar can produce, enumerated by depth-first re-execution of the generator over its "
-    "choice points (quick: a 1/12 slice of the formats chosen by the seed; thorough: all 876 formats). Non-trivial: "
+    "choice points (quick: a 1/12 slice of the formats chosen by the seed; thorough: all 900 formats, including explicit long / short name preferences). Non-trivial: "
     "the line shows at least two of the spelling features. Distinct = distinct (format, tokens) by hash."
 )
 ASSUMPTIONS = [
@@ -197,6 +197,9 @@ def small_formats():
     argsets = [[], [_a("a1", "req")], [_a("a1", "opt", "i")], [_a("a1", "req"), _a("a2", "opt")],
                [_a("a1", "req"), _a("rest", "multi")], [_a("rest", "multireq", "i")]]
     out = []
+    # name preference flags (explicit long / short preference on options that have both names)
+    optsets.append([dict(_o("foo", "f", "req", "s"), prefer="long"), dict(_o("bar", "b", "none", "s"), prefer="short")])
+    optsets.append([dict(_o("foo", "f", "none", "s"), prefer="long"), dict(_o("bar", "b", "multi", "i"), prefer="long")])
     for os_ in optsets:
         for as_ in argsets:
             out.append({"levels": [list(os_) + list(as_)]})
